@@ -242,6 +242,8 @@ impl Actor {
 // the system under test: real TaskTracker, harness-owned channel (tracker-level replay)
 
 pub(crate) type Res = (u64, u64); // (operation id, processing run)
+/// Entry recorded for a call whose future was dropped by the caller (spec action `Cancel`).
+const CANCELLED: Res = (u64::MAX, 0);
 
 #[derive(Default)]
 pub(crate) struct Shared {
@@ -579,6 +581,9 @@ fn judge(sys: &System, calls: &BTreeMap<String, Vec<String>>, out: &mut Outcome,
     for (s, ids) in calls {
         let rets = sh.rets.get(s).cloned().unwrap_or_default();
         for (k, r) in rets.iter().enumerate() {
+            if *r == CANCELLED {
+                continue;
+            }
             if r.0 != id_num(&ids[k]) || r.1 == 0 || r.1 > sys.runs.load(Ordering::SeqCst) {
                 ok = false;
                 out.violation(
@@ -636,7 +641,16 @@ fn replay(args: &Args) {
             if spec_rf != code_rf && act == "CreateNotified" {
                 continue;
             }
-            let got_pc = if actor == "pipe" && threaded {
+            let got_pc = if act == "Cancel" {
+                // the caller drops the suspended `process` future (and with it a created Notified)
+                let a = sys.actors.get_mut(actor).unwrap();
+                a.fut = None;
+                a.loc = Loc::Done;
+                let mut sh = sys.shared.borrow_mut();
+                sh.rets.entry(actor.to_string()).or_default().push(CANCELLED);
+                sh.held.insert(actor.to_string(), 0);
+                "finished".to_string()
+            } else if actor == "pipe" && threaded {
                 sys.pipe_step_threaded(act)
             } else {
                 let a = sys.actors.get_mut(actor).unwrap();
@@ -660,7 +674,7 @@ fn replay(args: &Args) {
                 let want_n = st["nret"].as_u64().unwrap() as usize;
                 if spec_rf == code_rf && rets.len() != want_n {
                     bad = Some(format!("step {k} {actor}.{act}: {} calls returned, spec says {want_n}", rets.len()));
-                } else if rets.len() == want_n && want_n > 0 {
+                } else if rets.len() == want_n && want_n > 0 && st["last"]["id"] != "cancelled" {
                     let want = (id_num(st["last"]["id"].as_str().unwrap()), st["last"]["run"].as_u64().unwrap());
                     if rets[want_n - 1] != want {
                         bad = Some(format!(
